@@ -377,10 +377,17 @@ CHECK = {
     "run_timeout": 900,
     "manifest": {
         "text": "Coq theorems about a model of both estimate_ overloads and the four find overloads with JacobiSVD as a contract-bound "
-                "oracle: R^T R = I, det R = +1 (with the determinant correction), least-squares optimality among orthogonal matrices, "
-                "exact data are mapped exactly (coplanar sets included), exact recovery of (R0, tau0) when the cross covariance is "
-                "non-singular, invariance under permutation of the correspondences; the refuted statement for the original code "
-                "(reflection on a coplanar set). Tied by running the extracted model against the real class for all eight point types.",
+                "oracle: R^T R = I, det R = +1 (with the determinant correction), least-squares optimality among orthogonal matrices and, "
+                "in 2D and 3D, among PROPER rotations on noisy data (the flipped matrix V diag(1,..,-1) U^T is optimal when det(V U^T) < 0, "
+                "whatever the last singular value); the model's list sums (means, cross covariance, assembled matrix) are identified "
+                "with the finite sums of the optimality theorems, so the output of estimate_pairs itself is proved to be the proper "
+                "rigid motion (rotation and translation) with the smallest sum of squared residuals on the listed pairs; exact data are "
+                "mapped exactly in both branches (coplanar sets included); uniqueness: on exact data t = R0 s + tau0 whose sources are "
+                "not all collinear (3D) / coincident (2D) the returned matrix is exactly (R0, tau0); the four find overloads reduce to "
+                "estimate_pairs and, with the same preconditioning scale on both sets, the result is again optimal on the original "
+                "pairs and equal to (R0, tau0) on exact data; invariance under permutation of "
+                "the correspondences; the refuted statement for the original code (reflection on a coplanar set). Tied by running the "
+                "extracted model against the real class for all eight point types.",
         "note": "Trusted: Coq kernel, real-number axioms, hand-written model (tied only by differential execution), extraction, float "
                 "dictionaries, harness, oracle, numpy reference. Eigen's SVD is not verified: it appears as a hypothesis.",
         "technique": "Coq proof (linear algebra over R) + extracted-model correspondence run + independent Kabsch/Umeyama oracle",
